@@ -23,7 +23,7 @@ ASSUMPTIONS = [
     "after a failed edit the contents (cell tuples, raw_data) are claimed unchanged; identity of the internal list is not claimed",
 ]
 REQUIRED_LABELS = {
-    "quick": ["fn_success", "gen_success", "fn_fail_interior", "gen_fail_interior", "attached", "detached", "second_edit", "scribble", "failure_mid_history", "follow_up_after_failure", "project_saved_before_edit", "moved_existing_notes", "exc_StopIteration", "exc_BoomBase", "first_edit_on_never_read_pattern", "notes_copied_from_another_pattern"],
+    "quick": ["fn_success", "gen_success", "fn_fail_interior", "gen_fail_interior", "attached", "detached", "second_edit", "scribble", "failure_mid_history", "follow_up_after_failure", "project_saved_before_edit", "moved_existing_notes", "exc_StopIteration", "exc_BoomBase", "first_edit_on_never_read_pattern", "notes_copied_from_another_pattern", "callable_fails_before_supplying_anything"],
     "thorough": ["fn_success", "gen_success", "fn_fail_interior", "gen_fail_interior", "attached", "detached", "second_edit", "scribble"],
 }
 
@@ -71,7 +71,7 @@ def case_strategy(draw, max_tracks, max_lines):
             k = draw(st.integers(0, min(ncells, 12)))
             idxs = draw(st.lists(st.integers(0, ncells - 1), min_size=k, max_size=k))
             cells = draw(st.lists(cell, min_size=k, max_size=k))
-            edits.append({"kind": "gen", "yields": [[i, c] for i, c in zip(idxs, cells)], "scribble": draw(st.booleans()), "fail_at": draw(st.one_of(st.none(), st.none(), st.integers(0, k))), "exc": draw(st.sampled_from(sorted(EXC_TYPES))), "source": draw(st.sampled_from(NOTE_SOURCES))})
+            edits.append({"kind": "gen", "yields": [[i, c] for i, c in zip(idxs, cells)], "scribble": draw(st.booleans()), "fail_at": draw(st.one_of(st.none(), st.none(), st.integers(0, k))), "exc": draw(st.sampled_from(sorted(EXC_TYPES))), "source": draw(st.sampled_from(NOTE_SOURCES)), "style": draw(st.sampled_from(["generator", "generator", "plain_function"]))})
     kf = draw(st.integers(0, min(ncells, 4)))
     follow = {"kind": "gen", "yields": [[draw(st.integers(0, ncells - 1)), draw(cell)] for _ in range(kf)], "scribble": False, "fail_at": None}
     return {
@@ -199,7 +199,18 @@ def apply_edit(pattern, edit, fail_at, before=None):
     expected = list(before)
     for idx, c in yields:
         expected[idx] = c
-    pattern.set_via_gen(gen)
+    style = edit.get("style") or "generator"
+    if style == "plain_function":
+        # not a generator function: an ordinary callable that checks its arguments first (and may fail
+        # right there, before any cell is supplied) and then returns the cells as a list
+        def plain(p, new):
+            if fail_at is not None and fail_at == 0:
+                raise make_exc(edit.get("exc"), 0)
+            return list(gen(p, new))
+
+        pattern.set_via_gen(plain)
+    else:
+        pattern.set_via_gen(gen)
     return expected
 
 
@@ -342,6 +353,8 @@ def run_case(ctx, case, only_fail_at=None):
             except (Exception, BoomBase) as b:
                 raised = b
                 labels.add("exc_" + (last.get("exc") or "Boom"))
+            if last.get("style") == "plain_function" and fail_at == 0:
+                labels.add("callable_fails_before_supplying_anything")
             if raised is None:
                 raise PropertyViolation("C19.failure.propagates", "%s: exception injected at position %d did not propagate" % (last["kind"], fail_at))
             if cells_of(pattern) != before_cells or pattern.raw_data != before_raw:
